@@ -60,7 +60,18 @@ fn unspecified_bindings(v: &Value) -> bool {
 }
 
 /// one Shape event per (pub fn, constant assignment) of an accepted program
-pub fn shape_events<W: Write>(w: &mut W, id: &str, family: &str, src: &str, typed: &TypedProgram, rng: &mut Rng) -> usize {
+pub struct Annotated<'a> { pub ast: &'a Value, pub circuit: &'a garble_lang::circuit::Circuit }
+
+/// AST without spans, node types and literal types: the shape that suffix erasure preserves
+fn shape_of(v: &Value) -> Value {
+    match v {
+        Value::Object(m) => { let mut o = serde_json::Map::new(); for (k, x) in m { if matches!(k.as_str(), "m" | "ty" | "cty" | "pty" | "nosfx") { continue; } o.insert(k.clone(), shape_of(x)); } Value::Object(o) }
+        Value::Array(a) => Value::Array(a.iter().map(shape_of).collect()),
+        x => x.clone(),
+    }
+}
+
+pub fn shape_events<W: Write>(w: &mut W, id: &str, family: &str, src: &str, typed: &TypedProgram, rng: &mut Rng, base: Option<&Annotated>) -> usize {
     let mut names: Vec<&String> = typed.fn_defs.iter().filter(|(_, f)| f.is_pub).map(|(n, _)| n).collect();
     names.sort();
     let has_consts = typed.const_deps.values().any(|d| !d.is_empty());
@@ -74,7 +85,7 @@ pub fn shape_events<W: Write>(w: &mut W, id: &str, family: &str, src: &str, type
             let opts = CompileOptions { circuit_kind: CircuitKind::Ssa, ..Default::default() };
             let mut ev = json!({"ev":"Shape","id":format!("{id}:{fn_name}:{k}"),"family":family,"src":src,"fn":fn_name,"consts":k,
                 "ptys":[],"ret":{"k":"bool"},"single_array":false,"prog":{"structs":{"_":[]},"enums":{"_":[]}},
-                "input_gates":[],"noutputs":0,"valid_ssa":false,"valid_reg":false,"eval_ok":false,"decode_ok":false,"reg_same_shape":false,"msg":"","unspecified_binding":unspec});
+                "input_gates":[],"noutputs":0,"valid_ssa":false,"valid_reg":false,"eval_ok":false,"decode_ok":false,"reg_same_shape":false,"msg":"","unspecified_binding":unspec,"agrees_with_annotated":true});
             n += 1;
             let r = guarded(|| typed.compile_with_constants(fn_name, consts.clone(), &opts).map(|(c, f, cs)| (c, f.clone(), cs)));
             let (circuit, fn_def, const_sizes) = match r {
@@ -147,6 +158,35 @@ pub fn shape_events<W: Write>(w: &mut W, id: &str, family: &str, src: &str, type
                     Err(m) => { eval_ok = false; msgs.push(format!("eval panic: {m}")); }
                 }
             }
+            // a suffix-erased variant whose typed AST has the shape of the annotated program (same nodes, same literal values)
+            // denotes the same function: compare the circuits on the inputs used above plus a few more
+            if let (Some(b), "main", false) = (base, fn_name.as_str(), unspec) {
+                let whole_shape = { let cs = HashMap::new(); let mut pr2 = Proj::new(typed, &cs); shape_of(&pr2.program("main")) };
+                if whole_shape == shape_of(b.ast) && b.circuit.input_gates == circuit.input_gates && b.circuit.output_gates.len() == circuit.output_gates.len() {
+                    for round in 0..4 {
+                        let mut flat: Vec<bool> = vec![];
+                        let mut ok = true;
+                        for p in fn_def.params.iter() {
+                            match crate::evalrec::gen_value(typed, &p.ty, rng) {
+                                Some(v) if round > 0 => { let lit = crate::evalrec::value_to_literal(typed, &p.ty, &v); match guarded(|| lit.as_bits(typed, &const_sizes)) { Ok(bits) => flat.extend(bits), Err(_) => ok = false } }
+                                _ => ok = round == 0,
+                            }
+                        }
+                        let total: usize = circuit.input_gates.iter().sum();
+                        if round == 0 { flat = vec![false; total]; }
+                        if !ok || flat.len() != total { continue; }
+                        let mut inputs: Vec<Vec<bool>> = vec![]; let mut at = 0;
+                        for n in circuit.input_gates.iter() { inputs.push(flat[at..at + n].to_vec()); at += n; }
+                        let (c1, c2, i1, i2) = (circuit.clone(), b.circuit.clone(), inputs.clone(), inputs.clone());
+                        let o1 = guarded(move || c1.eval(&i1));
+                        let o2 = guarded(move || c2.eval(&i2));
+                        // the panic location is a span of the source text, which differs between the two spellings: compare
+                        // flag and reason, and the value bits when there is no panic
+                        let same = |a: &Vec<bool>, b: &Vec<bool>| a.len() == b.len() && a.len() >= 161 && a[..33] == b[..33] && (a[0] || a[161..] == b[161..]);
+                        if let (Ok(o1), Ok(o2)) = (&o1, &o2) { if !same(o1, o2) { ev["agrees_with_annotated"] = json!(false); msgs.push(format!("output differs from the annotated program on input bits {}", flat.iter().map(|b| if *b { '1' } else { '0' }).collect::<String>())); break; } }
+                    }
+                }
+            }
             ev["eval_ok"] = json!(eval_ok);
             ev["decode_ok"] = json!(decode_ok);
             ev["msg"] = json!(msgs.join("; ").chars().take(400).collect::<String>());
@@ -157,10 +197,11 @@ pub fn shape_events<W: Write>(w: &mut W, id: &str, family: &str, src: &str, type
 }
 
 /// checks a source text and records Shape events if accepted, a Rejected event otherwise
-fn run_source<W: Write>(w: &mut W, id: &str, family: &str, src: &str, rng: &mut Rng) -> bool {
+fn run_source<W: Write>(w: &mut W, id: &str, family: &str, src: &str, rng: &mut Rng) -> bool { run_source_with(w, id, family, src, rng, None) }
+fn run_source_with<W: Write>(w: &mut W, id: &str, family: &str, src: &str, rng: &mut Rng, base: Option<&Annotated>) -> bool {
     if std::env::var("VERIF_DEBUG").is_ok() { eprintln!("[shape5] {id} {family}\n{src}"); }
     match guarded(|| garble_lang::check(src)) {
-        Ok(Ok(typed)) => { shape_events(w, id, family, src, &typed, rng); true }
+        Ok(Ok(typed)) => { shape_events(w, id, family, src, &typed, rng, base); true }
         Ok(Err(e)) => { emit(w, &json!({"ev":"Rejected","id":id,"family":family,"src":src,"msg":e.prettify(src).chars().take(200).collect::<String>()})); false }
         Err(m) => { emit(w, &json!({"ev":"CheckerPanic","id":id,"family":family,"src":src,"msg":m})); false }
     }
@@ -281,6 +322,7 @@ pub fn cmd_record(args: &[String]) {
         }
         let sites = num_sites(&base);
         if sites.is_empty() { continue; }
+        let base_circuit = match guarded(|| garble_lang::compile(&rendered)) { Ok(Ok(p)) => Some(p.circuit.unwrap_ssa_ref().clone()), _ => None };
         let mut subsets: Vec<Vec<usize>> = vec![];
         let mut order: Vec<usize> = (0..sites.len()).collect();
         for i in (1..order.len()).rev() { let j = rng.below(i + 1); order.swap(i, j); }
@@ -292,7 +334,19 @@ pub fn cmd_record(args: &[String]) {
             let mut m = base.clone();
             for i in sub { let mut x = get_path(&m, &sites[*i]).clone(); x["nosfx"] = json!(true); set_path(&mut m, &sites[*i], x); }
             let msrc = printer::program(&m);
-            run_source(&mut w, &format!("{id}-e{j}"), "erased", &msrc, &mut rng);
+            // the agreement with the annotated program is only demanded where the context fixes the type of the erased
+            // literal: one erased site, not inside the operand of a cast, a match scrutinee or the iterated expression of a for
+            let context_typed = sub.len() == 1 && {
+                let path = &sites[sub[0]];
+                !(1..path.len()).any(|d| {
+                    let parent = get_path(&base, &path[..d - 1]);
+                    matches!((&path[d - 1], parent["k"].as_str().unwrap_or("")), (P::K(k), "cast" | "match" | "for") if k == "e")
+                })
+            };
+            match &base_circuit {
+                Some(c) if context_typed => { let a = Annotated { ast: &base, circuit: c }; run_source_with(&mut w, &format!("{id}-e{j}"), "erased", &msrc, &mut rng, Some(&a)); }
+                _ => { run_source(&mut w, &format!("{id}-e{j}"), "erased", &msrc, &mut rng); }
+            }
         }
     }
     let _ = (SignedNumType::I8, UnsignedNumType::U8);
